@@ -362,3 +362,216 @@ func OpTable(r *rand.Rand) *spec.Grammar {
 	g.DefaultActs()
 	return g
 }
+
+// RichCfg controls Rich.
+type RichCfg struct {
+	Names   bool // stress identifier shapes
+	IntTags bool // use all four union fields (s, t string; n, m int)
+	LongRhs bool // rules up to length 12
+}
+
+var nameShapes = []string{"x", "Tok", "_t", "t_1", "T9", "LongTokenNameWithManyLettersAndDigits0123456789", "tÄ", "ñandú", "Λ", "t__", "Z_z"}
+
+// Rich produces a usable random grammar that exercises the declaration
+// section: explicit token numbers, literals, tags, tokens declared by %token /
+// only by a precedence line / only used in rules, %prec, non-first start symbol.
+func Rich(r *rand.Rand, c RichCfg) *spec.Grammar {
+	for {
+		g := rich(r, c)
+		if Usable(g) && !g.PrecAmbiguous() {
+			return g
+		}
+	}
+}
+
+func rich(r *rand.Rand, c RichCfg) *spec.Grammar {
+	g := &spec.Grammar{}
+	tags := []string{"s"}
+	if c.IntTags {
+		tags = []string{"s", "t", "n", "m"}
+	}
+	nT := 2 + r.Intn(6)
+	nN := 1 + r.Intn(5)
+	usedLit := map[int]bool{}
+	usedNum := map[int]bool{}
+	usedName := map[string]bool{}
+	mkName := func(prefix string, i int) string {
+		if c.Names && r.Intn(2) == 0 {
+			for k := 0; k < 10; k++ {
+				n := nameShapes[r.Intn(len(nameShapes))]
+				if prefix == "N" {
+					n = "n" + n
+				}
+				if !usedName[n] {
+					usedName[n] = true
+					return n
+				}
+			}
+		}
+		n := fmt.Sprintf("%s%c", prefix, 'a'+i)
+		if prefix == "N" {
+			n = fmt.Sprintf("N%c", 'A'+i)
+		}
+		usedName[n] = true
+		return n
+	}
+	litChars := []byte("+-*/=<>()[],.!?&^~#@:;|%\"'{}$`\\")
+	if !c.Names {
+		litChars = litPool
+	}
+	for i := 0; i < nT; i++ {
+		t := spec.Token{Decl: "token"}
+		switch r.Intn(5) {
+		case 0, 1: // literal
+			ch := int(litChars[r.Intn(len(litChars))])
+			for usedLit[ch] || ch == '\\' {
+				ch = int(litChars[r.Intn(len(litChars))])
+			}
+			usedLit[ch] = true
+			t.Lit = ch
+			switch r.Intn(3) {
+			case 0:
+				t.Decl = "none"
+			case 1:
+				t.Decl = "token"
+			default:
+				t.Decl = "none" // may be promoted to "prec" below
+			}
+		default:
+			t.Name = mkName("T", i)
+			if r.Intn(3) == 0 {
+				// explicit number outside the printable ASCII range
+				for {
+					n := 1 + r.Intn(31)
+					if r.Intn(2) == 0 {
+						n = 128 + r.Intn(800)
+					}
+					if !usedNum[n] {
+						usedNum[n] = true
+						t.Num = n
+						break
+					}
+				}
+			}
+		}
+		if t.Decl == "token" && r.Intn(4) != 0 {
+			t.Tag = tags[r.Intn(len(tags))]
+		}
+		g.Tokens = append(g.Tokens, t)
+	}
+	for i := 0; i < nN; i++ {
+		nt := spec.NT{Name: mkName("N", i)}
+		if r.Intn(5) != 0 || i == 0 {
+			nt.Tag = tags[r.Intn(len(tags))]
+		}
+		g.NTs = append(g.NTs, nt)
+	}
+	// precedence lines
+	if r.Intn(3) != 0 {
+		perm := r.Perm(nT)
+		nl := 1 + r.Intn(3)
+		pi := 0
+		for l := 0; l < nl && pi < nT; l++ {
+			pl := spec.PrecLine{Assoc: []string{"left", "right", "nonassoc"}[r.Intn(3)]}
+			cnt := 1 + r.Intn(2)
+			for k := 0; k < cnt && pi < nT; k++ {
+				pl.Toks = append(pl.Toks, perm[pi])
+				pi++
+			}
+			g.Precs = append(g.Precs, pl)
+		}
+		for _, pl := range g.Precs {
+			ptag := ""
+			for _, ti := range pl.Toks {
+				t := &g.Tokens[ti]
+				if t.Decl == "none" || (t.Decl == "token" && t.Num == 0 && r.Intn(3) == 0) {
+					t.Decl = "prec"
+					// all tokens first declared on one precedence line share its tag
+					if ptag == "" && r.Intn(2) == 0 {
+						ptag = tags[r.Intn(len(tags))]
+					}
+					t.Tag = ptag
+				}
+			}
+			// a tag on a precedence line applies to every token on it: keep it
+			// only if the tokens declared elsewhere carry the same tag
+			for _, ti := range pl.Toks {
+				if g.Tokens[ti].Decl == "token" && g.Tokens[ti].Tag != ptag {
+					ptag = ""
+				}
+			}
+			for _, ti := range pl.Toks {
+				if g.Tokens[ti].Decl == "prec" {
+					g.Tokens[ti].Tag = ptag
+				}
+			}
+		}
+	}
+	for i := range g.Tokens {
+		if g.Tokens[i].Decl == "none" {
+			g.Tokens[i].Tag = ""
+		}
+	}
+	maxRhs := 4
+	if c.LongRhs {
+		maxRhs = 12
+	}
+	for i := 0; i < nN; i++ {
+		na := 1 + r.Intn(3)
+		for a := 0; a < na; a++ {
+			ru := spec.Rule{Lhs: i, Prec: -1}
+			ln := r.Intn(maxRhs + 1)
+			if c.LongRhs && r.Intn(3) != 0 {
+				ln = r.Intn(5)
+			}
+			if r.Intn(5) == 0 {
+				ln = 0
+			}
+			for j := 0; j < ln; j++ {
+				if r.Intn(5) < 3 {
+					ru.Rhs = append(ru.Rhs, spec.Sym{T: true, I: r.Intn(nT)})
+				} else {
+					ru.Rhs = append(ru.Rhs, spec.Sym{I: r.Intn(nN)})
+				}
+			}
+			if len(g.Precs) > 0 && r.Intn(5) == 0 {
+				pl := g.Precs[r.Intn(len(g.Precs))]
+				ru.Prec = pl.Toks[r.Intn(len(pl.Toks))]
+			}
+			g.Rules = append(g.Rules, ru)
+		}
+	}
+	// an occasional second block of rules for an earlier nonterminal
+	if r.Intn(3) == 0 {
+		g.Rules = append(g.Rules, spec.Rule{Lhs: r.Intn(nN), Rhs: []spec.Sym{{T: true, I: r.Intn(nT)}}, Prec: -1})
+	}
+	g.Start = r.Intn(nN)
+	// literals that are neither declared nor used do not exist: declare them
+	for i := range g.Tokens {
+		if g.Tokens[i].Decl == "none" {
+			used := false
+			for _, ru := range g.Rules {
+				for _, s := range ru.Rhs {
+					if s.T && s.I == i {
+						used = true
+					}
+				}
+			}
+			if !used {
+				g.Tokens[i].Decl = "token"
+			}
+		}
+	}
+	// random subset of references, random coefficients
+	for k := range g.Rules {
+		ru := &g.Rules[k]
+		ru.Act.C0 = 1 + r.Intn(50)
+		for i, s := range ru.Rhs {
+			if g.SymTag(s) != "" && r.Intn(4) != 0 {
+				ru.Act.Refs = append(ru.Act.Refs, i+1)
+				ru.Act.Coef = append(ru.Act.Coef, 1+r.Intn(9))
+			}
+		}
+	}
+	return g
+}
